@@ -211,18 +211,27 @@ func (r *breader) readCode(c *Code) {
 		&c.name,
 		&sz,
 	)
+	if !r.checkSize(sz, 4) {
+		return
+	}
 	c.code = make([]code.Opcode, sz)
 	r.read(
 		4*uint64(sz)+8,
 		c.code,
 		&sz,
 	)
+	if !r.checkSize(sz, 4) {
+		return
+	}
 	c.lines = make([]int32, sz)
 	r.read(
 		4*uint64(sz)+8,
 		c.lines,
 		&sz,
 	)
+	if !r.checkSize(sz, 1) {
+		return
+	}
 	c.consts = make([]Value, sz)
 	for i := range c.consts {
 		c.consts[i] = r.readConst()
@@ -234,6 +243,9 @@ func (r *breader) readCode(c *Code) {
 		&c.CellCount,
 		&sz,
 	)
+	if !r.checkSize(sz, 8) {
+		return
+	}
 	c.UpNames = make([]string, sz)
 	for i := range c.UpNames {
 		c.UpNames[i] = r.readString()
@@ -268,12 +280,33 @@ func (r *breader) readString() (s string) {
 		return
 	}
 	r.consumeBudget(uint64(sl))
+	if !r.checkSize(sl, 1) {
+		return
+	}
 	b := make([]byte, sl)
 	_, r.err = r.r.Read(b)
 	if r.err == nil {
 		s = string(b)
 	}
 	return
+}
+
+// checkSize validates an item count read from the input before it is used to
+// size an allocation: it must not be negative and, when the remaining input
+// length is known, the items (at least itemSize bytes each) must fit in it.
+func (r *breader) checkSize(n int64, itemSize int) bool {
+	if r.err != nil {
+		return false
+	}
+	if n < 0 {
+		r.err = errInvalidSize
+		return false
+	}
+	if lr, ok := r.r.(interface{ Len() int }); ok && n > int64(lr.Len()/itemSize) {
+		r.err = io.ErrUnexpectedEOF
+		return false
+	}
+	return true
 }
 
 func (r *breader) consumeBudget(amount uint64) {
@@ -287,3 +320,4 @@ func (r *breader) consumeBudget(amount uint64) {
 }
 
 var errInvalidValueType = errors.New("Invalid value type")
+var errInvalidSize = errors.New("Invalid size")
